@@ -40,6 +40,28 @@ class LinenNested(nn.Module):
     return LinenCounter(name='inner')(LinenCounter(name='outer')(x)) + 1
 
 
+class LinenDeep(nn.Module):
+  """two levels of nesting: block/{outer,inner}/{w,count}"""
+
+  @nn.compact
+  def __call__(self, x):
+    return LinenNested(name='block')(x) * 2
+
+
+def _deep_merge(a, b):
+  out = dict(a)
+  for k, v in b.items():
+    out[k] = _deep_merge(out[k], v) if isinstance(v, dict) and isinstance(
+        out.get(k), dict) else v
+  return out
+
+
+def _held_variables(m):
+  return plain(jax.tree_util.tree_map(lambda v: v, BV.nnx_attrs_to_linen_vars(
+      {k: v for k, v in vars(m).items()
+       if k not in ('module', 'rngs', '_object__state')})))
+
+
 class NNXCounter(nnx.Module):
   def __init__(self, w, c, sharded=False):
     self.w = nnx.Param(w, sharding=('in', 'out')) if sharded else nnx.Param(w)
@@ -73,16 +95,18 @@ def tonnx_behaves_like_linen(ci, boxed, nested, x, w, c, calls, mut):
   propagated into the wrapper's state"""
   col = pick(COLS, ci)
   with Registry():
-    lin = LinenNested() if nested else LinenCounter(col=col, boxed=bool(boxed))
+    nested = pick([0, 1, 2], nested)
+    lin = (LinenCounter(col=col, boxed=bool(boxed)), LinenNested(), LinenDeep())[nested]
     if nested:
       col = 'batch_stats'
     m = bridge.ToNNX(lin)
     bridge.lazy_init(m, x)
+    top = m.block if nested == 2 else dict(outer=m.outer, inner=m.inner) if nested else None
     # collection <-> Variable type
     want_type = VL.variable_type_from_name(col)
     if nested:
-      hw, hc = m.outer['w'], m.outer['count']
-      if not isinstance(m.inner['count'], want_type):
+      hw, hc = top['outer']['w'], top['outer']['count']
+      if not isinstance(top['inner']['count'], want_type):
         return False
     else:
       hw, hc = m.w, m.count
@@ -99,20 +123,29 @@ def tonnx_behaves_like_linen(ci, boxed, nested, x, w, c, calls, mut):
       variables = BV.nnx_attrs_to_linen_vars(
           {k: v for k, v in vars(m).items()
            if k not in ('module', 'rngs', '_object__state')})
+      before = _held_variables(m)
       if mut:
         got = m(x, mutable=[col])
         want, upd = lin.apply(variables, x, mutable=[col])
         cc = cc + 1
+        # the wrapper's state afterwards: what it held, with the updates merged in
+        # at every depth -- nothing else is dropped, renamed or changed
+        if _held_variables(m) != _deep_merge(before, plain(upd)):
+          return False
       else:
         got = m(x)
         want = lin.apply(variables, x)
+        if _held_variables(m) != before:
+          return False
       if got != want:
         return False
       if not nested and got != x * w + cc:
         return False
       if nested:
-        hw, hc = m.outer['w'], m.outer['count']
-        if mut and m.inner['count'].value != upd[col]['inner']['count']:
+        top = m.block if nested == 2 else dict(outer=m.outer, inner=m.inner) if nested else None
+        hw, hc = top['outer']['w'], top['outer']['count']
+        u = upd[col]['block'] if (mut and nested == 2) else (upd[col] if mut else None)
+        if mut and top['inner']['count'].value != u['inner']['count']:
           return False
       else:
         hw, hc = m.w, m.count
@@ -319,7 +352,7 @@ def obligations(tier):
   v = I(-3, 3)
   return [
       Ob('tonnx_behaves_like_linen', tonnx_behaves_like_linen,
-         dict(ci=I(0, len(COLS) - 1), boxed=B(), nested=B(), x=v, w=v, c=v,
+         dict(ci=I(0, len(COLS) - 1), boxed=B(), nested=I(0, 2), x=v, w=v, c=v,
               calls=I(1, 2 if quick else 3), mut=B()),
          split=('ci', 'boxed', 'nested', 'mut'), timeout=900, funcs=F,
          per_path_timeout=90.0,
